@@ -20,6 +20,7 @@ import (
 	"github.com/andydunstall/piko/pkg/gossip"
 	pikowebsocket "github.com/andydunstall/piko/pkg/websocket"
 	"github.com/andydunstall/piko/server/cluster"
+	"github.com/andydunstall/piko/server/config"
 	"github.com/andydunstall/piko/server/upstream"
 
 	"verif/harness/core"
@@ -97,11 +98,18 @@ type rawClient struct {
 }
 
 func dialRaw(n *Node, ep, token string) (*rawClient, error) {
+	return dialRawTenant(n, ep, token, "")
+}
+
+func dialRawTenant(n *Node, ep, token, tenant string) (*rawClient, error) {
 	ctx, cancel := context.WithTimeout(context.Background(), 10*time.Second)
 	defer cancel()
 	var opts []pikowebsocket.DialOption
 	if token != "" {
 		opts = append(opts, pikowebsocket.WithToken(token))
+	}
+	if tenant != "" {
+		opts = append(opts, pikowebsocket.WithTenantID(tenant))
 	}
 	conn, err := pikowebsocket.Dial(ctx, "ws://"+n.UpstreamAddr()+"/piko/v1/upstream/"+ep, opts...)
 	if err != nil {
@@ -491,9 +499,15 @@ func runC16Scenario(r *rand.Rand, sh *core.Shard, nconns int, faults []string, f
 
 // ---- token expiry ---------------------------------------------------------------------------
 
-func runC16Expiry(sh *core.Shard, disable bool, k int) (sig, what string, inconclusive string) {
+func runC16Expiry(sh *core.Shard, disable bool, k int, tenant string) (sig, what string, inconclusive string) {
 	key := []byte("c16-expiry-secret-0123456789abcdef")
-	n, err := StartNode(NodeOpts{UpstreamAuth: auth.Config{HMACSecretKey: string(key), DisableDisconnectOnExpiry: disable}, GossipInterval: 50 * time.Millisecond})
+	o := NodeOpts{UpstreamAuth: auth.Config{HMACSecretKey: string(key), DisableDisconnectOnExpiry: disable}, GossipInterval: 50 * time.Millisecond}
+	if tenant != "" {
+		// the connections authenticate under a tenant with its own key
+		o.UpstreamAuth = auth.Config{HMACSecretKey: "c16-default-key-unused-0123456789ab"}
+		o.Tenants = []config.TenantConfig{{ID: tenant, Auth: auth.Config{HMACSecretKey: string(key), DisableDisconnectOnExpiry: disable}}}
+	}
+	n, err := StartNode(o)
 	if err != nil {
 		return "", "", err.Error()
 	}
@@ -521,7 +535,7 @@ func runC16Expiry(sh *core.Shard, disable bool, k int) (sig, what string, inconc
 			// the exp claim is in whole seconds
 			exp = time.Unix(time.Now().Add(o.Exp).Unix(), 0)
 		}
-		rc, err := dialRaw(n, fmt.Sprintf("x%d", i%2), tok)
+		rc, err := dialRawTenant(n, fmt.Sprintf("x%d", i%2), tok, tenant)
 		if err != nil {
 			return "", "", "dial: " + err.Error()
 		}
@@ -573,7 +587,7 @@ func runC16Expiry(sh *core.Shard, disable bool, k int) (sig, what string, inconc
 		if i%3 != 2 {
 			o.Exp = time.Hour
 		}
-		rc, err := dialRaw(n, fmt.Sprintf("y%d", i%2), sign("HS256", key, o))
+		rc, err := dialRawTenant(n, fmt.Sprintf("y%d", i%2), sign("HS256", key, o), tenant)
 		if err != nil {
 			return "", "", "dial: " + err.Error()
 		}
@@ -660,29 +674,34 @@ func runC16(sh *core.Shard, a props.Args) {
 	}
 	sh.Exhaustive["single_fault_list"] = single
 	// token expiry: with and without disconnect-on-expiry
-	for j, disable := range []bool{false, true} {
+	type expCase struct {
+		disable bool
+		tenant  string
+	}
+	for j, ec := range []expCase{{false, ""}, {true, ""}, {false, "t1"}, {true, "t1"}} {
+		disable := ec.disable
 		if a.Shard != (3+j)%a.NShards {
 			continue
 		}
-		fmt.Printf("CASE C16 expiry disable_disconnect_on_expiry=%v\n", disable)
-		sig, what, inc := runC16Expiry(sh, disable, 9)
+		fmt.Printf("CASE C16 expiry disable_disconnect_on_expiry=%v tenant=%q\n", disable, ec.tenant)
+		sig, what, inc := runC16Expiry(sh, disable, 9, ec.tenant)
 		sh.Eval()
 		if inc != "" {
 			sh.Inconcl("expiry: %s", inc)
 			continue
 		}
 		if sig != "" {
-			sh.Violate(sig, fmt.Sprintf("disable_disconnect_on_expiry=%v: %s", disable, what), map[string]any{"kind": "expiry", "disable_disconnect_on_expiry": disable})
+			sh.Violate(sig, fmt.Sprintf("disable_disconnect_on_expiry=%v tenant=%q: %s", disable, ec.tenant, what), map[string]any{"kind": "expiry", "disable_disconnect_on_expiry": disable, "tenant": ec.tenant})
 			return
 		}
-		sh.Nontrivial(core.Hash("expiry", disable))
+		sh.Nontrivial(core.Hash("expiry", disable, ec.tenant))
 	}
 }
 
 func init() {
 	props.Register(&props.Prop{
 		ID: "C16", Level: "fault_enumeration", Race: true, Parallel: 8,
-		Rule: "a fully assembled real node (race build) observed through four views: the manager's registry, the local routing-table entry, the locally published gossip entries and the open-session count. Upstream connections are a seeded mix of raw WebSocket+yamux clients (no reconnect), reconnecting client listeners, and listeners behind an interposed TCP proxy; 1-24 of them over shared and distinct endpoints, with three request goroutines running throughout. Fault list: client disconnect of a random subset; every connection of one endpoint; go-away then requests then disconnect; go-away with sibling upstreams (the double-removal trigger); TCP cut of every interposed connection by FIN and by RST (listeners reconnect); server-side shedding through Rebalance with an injected idle peer (raw clients end, listeners reconnect); more connects. Every fault is run alone with both endings (all clients leave / server shutdown with raw clients attached) and in seeded sequences of 2-7 faults. Oracle at every quiescent point (polled, 20 s watchdog => violation because the views never converged): the four views are equal and equal the connections the harness holds open (go-away'd ones may or may not still be counted); at the end all four are empty and, on shutdown, every raw client saw its session end. Token expiry: 9 raw clients with tokens expiring 3-5 s ahead or never, with disconnect-on-expiry enabled and disabled; the server must close exactly the expiring ones within [T-1.1 s, T+5 s], and none when disabled or without exp (observed for 11 s). Distinct = hash of (fault sequence, ending, size).",
+		Rule: "a fully assembled real node (race build) observed through four views: the manager's registry, the local routing-table entry, the locally published gossip entries and the open-session count. Upstream connections are a seeded mix of raw WebSocket+yamux clients (no reconnect), reconnecting client listeners, and listeners behind an interposed TCP proxy; 1-24 of them over shared and distinct endpoints, with three request goroutines running throughout. Fault list: client disconnect of a random subset; every connection of one endpoint; go-away then requests then disconnect; go-away with sibling upstreams (the double-removal trigger); TCP cut of every interposed connection by FIN and by RST (listeners reconnect); server-side shedding through Rebalance with an injected idle peer (raw clients end, listeners reconnect); more connects. Every fault is run alone with both endings (all clients leave / server shutdown with raw clients attached) and in seeded sequences of 2-7 faults. Oracle at every quiescent point (polled, 20 s watchdog => violation because the views never converged): the four views are equal and equal the connections the harness holds open (go-away'd ones may or may not still be counted); at the end all four are empty and, on shutdown, every raw client saw its session end. Token expiry: 9 raw clients with tokens expiring 3-5 s ahead or never, with disconnect-on-expiry enabled and disabled, authenticated with the default key and under a tenant with its own key; the server must close exactly the expiring ones within [T-1.1 s, T+5 s], and none when disabled or without exp (observed for 11 s). Distinct = hash of (fault sequence, ending, size).",
 		Assumptions: []string{
 			"expiry bounds: T is known to whole seconds (JWT), the window allows 1.1 s before and 5 s after; these are the only wall-clock verdicts",
 			"rebalance parameters swapped through a verif-tagged setter",
